@@ -62,6 +62,8 @@ type FuncContract struct {
 	OpaqueMul bool     // products of two non-constant integer terms are written tm(a, b), uninterpreted: what the proof knows about them are lemma instances
 	OpaqueDiv bool     // in contract expressions a / b with a non-constant divisor is written dv(a, b), uninterpreted (known through lemma instances only)
 	NoPanicFrom []*Clause // with maypanic: callees whose characterised panic must nevertheless be unreachable here
+	GhostLists [][2]string // (name, slice sort): ghost lists of this function
+	Logs       [][2]string // (parameter, ghost list): effect of a call on the caller's ghost list
 	MayPanic bool      // panics are allowed without characterisation (only for callers' benefit: reach is cut)
 	Modifies []*Clause
 	Lets     []*Clause // evaluated at entry
@@ -122,7 +124,7 @@ type Contracts struct {
 
 var clauseKeywords = map[string]bool{
 	"func": true, "lemma": true, "axiom": true, "mode": true, "prelude": true, "requires": true, "ensures": true, "panics": true,
-	"maypanic": true, "nopanic": true, "opaquemul": true, "opaquediv": true, "proves": true, "modifies": true, "loop": true, "invariant": true, "decreases": true, "unroll": true, "witness": true,
+	"maypanic": true, "nopanic": true, "ghostlist": true, "logs": true, "opaquemul": true, "opaquediv": true, "proves": true, "modifies": true, "loop": true, "invariant": true, "decreases": true, "unroll": true, "witness": true,
 	"let": true, "postlet": true, "trusted": true, "inline": true, "pure": true, "use": true, "postuse": true, "opaque": true,
 	"havoc": true, "nosafety": true, "assume": true, "param": true, "loopmodifies": true, "looplet": true, "loopuse": true, "stepassert": true, "bits": true, "end": true, "macro": true, "cases": true, "ghostview": true, "assumedensures": true,
 }
@@ -353,6 +355,20 @@ func (cs *Contracts) parseFile(file, pkg, src string) error {
 		case "nopanic":
 			// nopanic <callee>: although this function may panic (maypanic), the stated panic of that callee is proved unreachable
 			fc.NoPanicFrom = append(fc.NoPanicFrom, &Clause{Kind: "nopanic", Props: r.props, Text: strings.TrimSpace(r.text), File: file, Line: r.line})
+		case "ghostlist":
+			// ghostlist <name> <slice sort>: a ghost list, empty on entry, extended by callees that `logs ... to <name>`
+			parts := strings.Fields(r.text)
+			if len(parts) != 2 {
+				return fmt.Errorf("%s:%d: ghostlist <name> <sort>", file, r.line)
+			}
+			fc.GhostLists = append(fc.GhostLists, [2]string{parts[0], parts[1]})
+		case "logs":
+			// logs <parameter> to <ghost list>: a call appends the elements of that (slice) argument to the caller's ghost list
+			parts := strings.Fields(r.text)
+			if len(parts) != 3 || parts[1] != "to" {
+				return fmt.Errorf("%s:%d: logs <parameter> to <ghost list>", file, r.line)
+			}
+			fc.Logs = append(fc.Logs, [2]string{parts[0], parts[2]})
 		case "opaquemul":
 			fc.OpaqueMul = true
 		case "opaquediv":
